@@ -615,8 +615,13 @@ class RxPipeline(Elaboratable):
         m.d.comb += [
             bitstuff.i_valid.eq(nrzi.o_valid),
             bitstuff.i_data.eq(nrzi.o_data),
-            self.o_receive_error.eq(bitstuff.o_error)
         ]
+
+        # The bit-stuff error strobe lasts a single 48MHz cycle; stretch it to four cycles so the
+        # (phase-related, 4:1) 12MHz UTMI domain always samples it exactly once.
+        error_stretch = Signal(3)
+        m.d.usb_io += error_stretch.eq(Cat(bitstuff.o_error, error_stretch[:-1]))
+        m.d.comb   += self.o_receive_error.eq(bitstuff.o_error | error_stretch.any())
 
         #
         # 1bit->8bit (1byte) gearing
